@@ -35,10 +35,10 @@ def cfg_pass(pool, tier, seed):
     res = pool.map(cfgpass.work_chunk, tasks, chunksize=1)
     rnd = []
     if tier == 'quick':
-        rnd = [(n, 25, seed * 17 + i, 'plain') for i, n in enumerate((9, 10, 12, 14))]
-        rnd += [(n, 60, seed * 17 + 50 + i, 'plain') for i, n in enumerate((5, 5, 6, 6, 7, 7, 8, 8))]
-        rnd += [(n, 60, seed * 17 + 70 + i, 'plain3') for i, n in enumerate((4, 5, 6, 7))]
-        rnd += [(n, 20, seed * 17 + 100 + i, p) for i, (n, p) in enumerate(((4, 'bytecode'), (6, 'bytecode'), (4, 'ast'), (6, 'ast')))]
+        rnd = [(n, 60, seed * 17 + i, 'plain') for i, n in enumerate((9, 10, 11, 12, 13, 14, 16, 18))]
+        rnd += [(n, 150, seed * 17 + 50 + i, 'plain') for i, n in enumerate((5, 5, 6, 6, 7, 7, 8, 8))]
+        rnd += [(n, 100, seed * 17 + 70 + i, 'plain3') for i, n in enumerate((4, 5, 6, 7))]
+        rnd += [(n, 40, seed * 17 + 100 + i, p) for i, (n, p) in enumerate(((4, 'bytecode'), (6, 'bytecode'), (8, 'bytecode'), (4, 'ast'), (6, 'ast'), (8, 'ast')))]
     else:
         rnd = [(n, 300, seed * 17 + i, 'plain') for i, n in enumerate((5, 6, 7, 8, 9, 10, 11, 12, 13, 14, 15, 16, 17, 18) * 2)]
         rnd += [(n, 200, seed * 17 + 100 + i, p) for i, (n, p) in enumerate(((4, 'bytecode'), (6, 'bytecode'), (8, 'bytecode'), (4, 'ast'), (6, 'ast'), (8, 'ast')))]
